@@ -677,14 +677,14 @@ pub mod abi_sweep {
 
     fn run_case(seed: u64, index: u64, rep: &mut Report) {
         let mut rng = Rng::derive(seed, 0xC13A, index);
-        let mut w = World::new(&WorldCfg { sq_size: 8, cq_size: None, direct: true, pool: None, sq_start: 0, cq_start: 0, layout_seed: 0 }, seed ^ index);
+        let mut w = World::new(&WorldCfg { sq_size: 8, cq_size: None, direct: true, pool: Some((2, 64)), sq_start: 0, cq_start: 0, layout_seed: 0 }, seed ^ index);
         w.ident = ("c13abi".into(), seed, index);
         let sq = w.sq.as_ref().unwrap().clone();
         let use_direct = rng.chance(1, 2);
         let fd: &'static a10::AsyncFd = if use_direct { w.env.as_ref().unwrap().dfd.unwrap() } else { w.env.as_ref().unwrap().fd };
         let raw_fd: i64 = crate::ops::raw_of(fd);
         let fixed = if use_direct { u64::from(IOSQE_FIXED_FILE) } else { 0 };
-        let which = rng.below(24);
+        let which = rng.below(27);
         let mut exp: Expect = Vec::new();
         let mut strings: Vec<(&'static str, Vec<u8>, Box<dyn Fn(&Sqe) -> u64>)> = Vec::new();
         let mut name: &'static str = "?";
@@ -962,6 +962,25 @@ pub mod abi_sweep {
                 exp.push(field("addrlen value", 28, |s| unsafe { u64::from(rd_u32(s.off())) }));
                 exp.push(field("FIXED_FILE", fixed, |s| u64::from(s.flags() & IOSQE_FIXED_FILE)));
                 fut_op(fd.accept::<std::net::SocketAddr>(), unit)
+            }
+            22 | 23 => {
+                // Reads into pool buffers: the kernel selects the buffer, on either kind of descriptor.
+                let recv = which == 23;
+                name = if recv { "recv_pool" } else { "read_pool" };
+                let pool = w.env.as_ref().unwrap().pool.as_ref().unwrap().clone();
+                exp.push(field("opcode", u64::from(if recv { OP_RECV } else { OP_READ }), |s| u64::from(s.opcode())));
+                exp.push(field("fd", raw_fd as u64, |s| s.fd() as u64));
+                exp.push(field("flags (exactly)", fixed | u64::from(IOSQE_BUFFER_SELECT), |s| u64::from(s.flags())));
+                exp.push(field("addr (none, kernel selects)", 0, |s| s.addr()));
+                let map = |r: std::io::Result<a10::io::ReadBuf>| match r {
+                    Ok(b) => {
+                        let mut o = Outcome::ok(b.len() as i64);
+                        o.rbufs.push(b);
+                        o
+                    }
+                    Err(e) => Outcome::err(&e),
+                };
+                if recv { fut_op(fd.recv(pool.get()), map) } else { fut_op(fd.read(pool.get()), map) }
             }
             21 => {
                 name = "multishot_accept";
